@@ -12,6 +12,14 @@
 //	setcfg <j>      the rules configuration is replaced by configuration j (config swap of a reload)
 //	clear           SamplerFactory.ClearDynsamplers (first half of InMemCollector.reloadConfigs)
 //	wreload <w>     worker w processes its reload signal: clears its sampler cache
+//	peerset <n> / peersetfail   the peer source changes its answer, the callback has NOT run yet
+//	peercb          the registered peers callback runs
+//	reload <w> <env>  the real InMemCollector.reloadConfigs runs on a collector shell whose workers' reload
+//	                channels feed the simulated worker caches; in the middle of it (StressRelief.UpdateFromConfig)
+//	                worker w runs one loop iteration: handles its reload signal if it already has one, then makes
+//	                a decision for env.  Afterwards every worker handles its pending signal and asks for env.
+//	                ext order = the observed order of {clear, stress, signal}; obs m=<w's slots mid-reload>
+//	                r=<slot ids of worker 0>/<worker 1>/…
 //	cget <env> <k>  k fresh workers (empty caches) released by a barrier ask the real factory for the
 //	                sampler of key env at the same moment; obs r=<slot ids>/<slot ids>/… one list per worker.
 //	                While they run, Metrics.Register() yields and sleeps briefly (the creation path registers
@@ -35,6 +43,7 @@ import (
 	"sync/atomic"
 	"time"
 
+	"github.com/honeycombio/refinery/collect"
 	"github.com/honeycombio/refinery/config"
 	kit "github.com/honeycombio/refinery/internal/verifkit"
 	"github.com/honeycombio/refinery/logger"
@@ -554,6 +563,35 @@ func (comp) Gen(r *kit.Rng, maxLen int, tier string) kit.Case {
 			}
 			continue
 		}
+		if r.Chance(6) {
+			// a membership change whose callback is late: work happens in between
+			if r.Chance(88) {
+				ops = append(ops, fmt.Sprintf("peerset %d", []int{1, 2, 3, 4, 7, 10, 100}[r.Intn(7)]))
+			} else if r.Chance(50) {
+				ops = append(ops, "peersetfail")
+			} else {
+				ops = append(ops, "peerset 0")
+			}
+			for k := r.Intn(3); k >= 0; k-- {
+				if r.Chance(50) {
+					ops = append(ops, fmt.Sprintf("wreload %d", r.Intn(workers)))
+				}
+				ops = append(ops, get())
+			}
+			if r.Chance(15) {
+				ops = append(ops, fmt.Sprintf("peerset %d", 1+r.Intn(5)))
+			}
+			ops = append(ops, "peercb")
+			continue
+		}
+		if r.Chance(5) {
+			// a reload through the real InMemCollector.reloadConfigs
+			if r.Chance(60) {
+				ops = append(ops, fmt.Sprintf("setcfg %d", r.Intn(len(cfgs))))
+			}
+			ops = append(ops, fmt.Sprintf("reload %d %s", r.Intn(workers), kit.Enc(opEnvs[r.Intn(len(opEnvs))])))
+			continue
+		}
 		switch r.Pick(58, 15, 3, 10, 4, 3, 3, 4) {
 		case 0:
 			ops = append(ops, get())
@@ -653,6 +691,7 @@ func (m *slowMetrics) Register(md metrics.Metadata) {
 }
 
 type runner struct {
+	col     *collect.VerifSamplerregCollector
 	met     *slowMetrics
 	cfgs    []cfgT
 	mock    *config.MockConfig
@@ -686,6 +725,7 @@ func (comp) NewCase(h []string) kit.Runner {
 	for i := 0; i < nw; i++ {
 		r.workers = append(r.workers, map[string]sample.Sampler{})
 	}
+	r.col = collect.VerifSamplerregNewCollector(r.f, nw)
 	// start-up: the peer implementation announces the initial membership
 	switch p0 := kit.KV(h, "peers0"); p0 {
 	case "f":
@@ -794,8 +834,105 @@ func (r *runner) tail(slots []any) string {
 	return out
 }
 
+// workerGet is collector_worker.go makeDecision's sampler lookup: cached sampler, else create and cache.
+func (r *runner) workerGet(w int, env string) sample.Sampler {
+	s, found := r.workers[w][env]
+	if !found {
+		s = r.f.GetSamplerImplementationForKey(env)
+		r.workers[w][env] = s
+	}
+	return s
+}
+
+func (r *runner) slotIDs(s sample.Sampler) string {
+	if s == nil {
+		return "nil"
+	}
+	var ids []string
+	for _, x := range sample.VerifSamplerregInstances(s) {
+		if x == nil {
+			ids = append(ids, "-")
+		} else {
+			ids = append(ids, strconv.Itoa(r.id(x)))
+		}
+	}
+	return join(ids)
+}
+
 func (r *runner) Do(op []string) (string, bool) {
 	switch op[0] {
+	case "peerset":
+		n, _ := strconv.Atoi(op[1])
+		r.peers.fail = false
+		r.peers.n = n
+		return r.tail(nil), true
+	case "peersetfail":
+		r.peers.fail = true
+		return r.tail(nil), true
+	case "peercb":
+		r.peers.fire()
+		return r.tail(nil), true
+	case "reload":
+		w, _ := strconv.Atoi(op[1])
+		env := kit.Dec(op[2])
+		if w < 0 || w >= len(r.workers) {
+			return "bad-op", true
+		}
+		if c, _ := r.mock.GetSamplerConfigForDestName(env); c == nil {
+			return "exit", true
+		}
+		sample.VerifSamplerregSentinel(r.f, true)
+		var order []string
+		anyPending := func() bool {
+			for i := range r.workers {
+				if r.col.Pending(i) {
+					return true
+				}
+			}
+			return false
+		}
+		mid := ""
+		r.col.Reload(func() {
+			if !sample.VerifSamplerregHasSentinel(r.f) {
+				order = append(order, "clear")
+			}
+			if anyPending() {
+				order = append(order, "signal")
+			}
+			order = append(order, "stress")
+			// one iteration of worker w's loop: the reload signal if there is one, then a decision
+			if r.col.TakeSignal(w) {
+				clear(r.workers[w])
+			}
+			mid = r.slotIDs(r.workerGet(w, env))
+		})
+		has := func(x string) bool {
+			for _, o := range order {
+				if o == x {
+					return true
+				}
+			}
+			return false
+		}
+		if !has("clear") && !sample.VerifSamplerregHasSentinel(r.f) {
+			order = append(order, "clear")
+		}
+		if !has("signal") && anyPending() {
+			order = append(order, "signal")
+		}
+		sample.VerifSamplerregSentinel(r.f, false)
+		kit.Ext("order = %s", strings.Join(order, ","))
+		// the reload is over: every worker gets round to its signal, then to a decision for env
+		for i := range r.workers {
+			if r.col.TakeSignal(i) {
+				clear(r.workers[i])
+			}
+		}
+		var lists []string
+		for i := range r.workers {
+			lists = append(lists, r.slotIDs(r.workerGet(i, env)))
+		}
+		return "m=" + mid + " r=" + strings.Join(lists, "/") + " " + r.tail(nil), true
 	case "get":
 		w, _ := strconv.Atoi(op[1])
 		env := kit.Dec(op[2])
